@@ -591,7 +591,10 @@ def update(values: [(str, bool)], original: dawgie.pl.dag.Node, rid: int):
             if fvn in dawgie.pl.schedule.ae.feedbacks:
                 event = 'following feedback loop'
                 rid = None
-                task_names.add('.'.join(feedbacks[fvn].split('.')[:2]))
+                task_names.update(
+                    '.'.join(consumer.split('.')[:2])
+                    for consumer in feedbacks[fvn]
+                )
                 pass
             pass
         for node in filter(lambda n: n.tag != original.tag, original):
